@@ -211,7 +211,7 @@ Lemma tops_dir : forall pp a b d n c ch,
   pruned_dir c = false ->
   tops pp a b d (Dir n c ch) =
   ((n :: pp, d, OT) :: (if (0 <? d) && negb (count_excluded c) then [(pp, d - 1, OD)] else []))
-  ++ flat_map (tops (n :: pp) (c_plc_scope c) (c_lim_scope c) (d + 1)) ch.
+  ++ flat_map (tops (n :: pp) (c_scope c) (c_scope c) (d + 1)) ch.
 Proof.
   intros pp a b d n c ch Hp. unfold tops at 1. simpl. rewrite Hp. simpl.
   unfold pruned_dir in Hp. apply orb_false_iff in Hp. destruct Hp as [_ Hse].
@@ -373,7 +373,7 @@ Proof.
   - destruct (pruned_dir c) eqn:Hp.
     + rewrite tops_dir_pruned by exact Hp. simpl. rewrite Hp. simpl. split; reflexivity.
     + rewrite tops_dir by exact Hp. rewrite !cnt_app.
-      assert (Hrest : forall t0, cnt t0 (flat_map (tops (n :: pp) (c_plc_scope c) (c_lim_scope c) (d + 1)) ch) pp = 0).
+      assert (Hrest : forall t0, cnt t0 (flat_map (tops (n :: pp) (c_scope c) (c_scope c) (d + 1)) ch) pp = 0).
       { apply no_key. intros o Ho. apply in_flat_map in Ho. destruct Ho as [x [Hx Ho]].
         apply tops_keys in Ho. intro E. destruct Ho as [E'|U].
         - rewrite E in E'. apply (under_cons_neq n pp). rewrite <- E'. apply under_refl.
@@ -474,7 +474,7 @@ Proof.
       assert (Hppq : pp <> n :: pp).
       { intro E. apply (under_cons_neq n pp). rewrite E at 2. apply under_refl. }
       remember (n :: pp) as q eqn:Hq.
-      set (f := tops q (c_plc_scope c) (c_lim_scope c) (d + 1)).
+      set (f := tops q (c_scope c) (c_scope c) (d + 1)).
       set (g := dir_nodes_aux q (d + 1)).
       destruct (path_eqb q k) eqn:Eqk.
       * (* the directory itself *)
@@ -485,7 +485,7 @@ Proof.
         { clear - Hd. assert (Hd1 : 0 < d + 1) by lia. induction ch as [|x ch IHc]; simpl.
           - split; reflexivity.
           - rewrite !cnt_app, !count_if_cons. destruct IHc as [I1 I2]. rewrite I1, I2.
-            destruct (tops_parent_counts x q (c_plc_scope c) (c_lim_scope c) (d + 1) Hd1) as [P1 P2].
+            destruct (tops_parent_counts x q (c_scope c) (c_scope c) (d + 1) Hd1) as [P1 P2].
             unfold f. rewrite P1, P2. split; reflexivity. }
         destruct Hsum as [S1 S2]. rewrite S1, S2.
         apply path_eqb_neq in Hppq.
@@ -519,16 +519,16 @@ Proof.
                  --- intros o Ho E. apply in_flat_map in Ho. destruct Ho as [z [Hz Ho]].
                      assert (Hzx : tname z <> x).
                      { intro Ez. apply Hnotin. rewrite Eyx, <- Ez. apply in_map. exact Hz. }
-                     destruct (other_child_silent z q (c_plc_scope c) (c_lim_scope c) (d + 1) x k Hx Hzx) as [S _].
+                     destruct (other_child_silent z q (c_scope c) (c_scope c) (d + 1) x k Hx Hzx) as [S _].
                      apply (S o Ho E).
                  --- intros w Hw E. apply in_flat_map in Hw. destruct Hw as [z [Hz Hw]].
                      assert (Hzx : tname z <> x).
                      { intro Ez. apply Hnotin. rewrite Eyx, <- Ez. apply in_map. exact Hz. }
-                     destruct (other_child_silent z q (c_plc_scope c) (c_lim_scope c) (d + 1) x k Hx Hzx) as [_ S].
+                     destruct (other_child_silent z q (c_scope c) (c_scope c) (d + 1) x k Hx Hzx) as [_ S].
                      apply (S w Hw E).
               ** assert (Hyx : tname y <> x).
                  { intro E. apply str_eqb_eq in E. congruence. }
-                 destruct (other_child_silent y q (c_plc_scope c) (c_lim_scope c) (d + 1) x k Hx Hyx) as [S1 S2].
+                 destruct (other_child_silent y q (c_scope c) (c_scope c) (d + 1) x k Hx Hyx) as [S1 S2].
                  apply agrees_app_r; [exact S1 | exact S2 |].
                  apply IHc. exact Hnd. intros z Hz. apply Hwfc. right. exact Hz. exact IHrest.
 Qed.
